@@ -80,6 +80,60 @@ def cases_events(tier, rng):
         yield {"seed": rng.randint(0, 10**9), "files": rng.randint(1, 5), "per_file": rng.randint(0, 6), "shuffle_files": bool(i & 1)}
 
 
+def run_aggregate(S, case):
+    """JobRunner._aggregate_events on real files: afterwards the node's event log is byte for byte what it was (the runner's own events)
+    followed by the job event logs in configuration order, and the job logs that existed are gone.  BOUNDED."""
+    import os
+    import shutil
+    from jade.common import JOBS_OUTPUT_DIR
+    from jade.jobs.job_runner import JobRunner
+    from jade.extensions.generic_command import GenericCommandConfiguration, GenericCommandParameters
+    rng = random.Random(case["seed"])
+    out = tempfile.mkdtemp(prefix="verif-ag-")
+    try:
+        names = [f"j{i}" for i in range(case["n"])]
+        rng.shuffle(names)
+        cfg = GenericCommandConfiguration()
+        for x in names:
+            cfg.add_job(GenericCommandParameters(command="true", name=x))
+        node_log = os.path.join(out, "run_jobs_batch_1_node_events.log")
+        own = [json.dumps({"name": "bytes_consumed", "k": i}) + "\n" for i in range(case["own"])]
+        if case["own"] >= 0:
+            with open(node_log, "w") as f:
+                f.writelines(own)
+        expected = list(own)
+        had = []
+        for x in names:
+            if rng.random() < 0.7:
+                os.makedirs(os.path.join(out, JOBS_OUTPUT_DIR, x), exist_ok=True)
+                lines = [json.dumps({"name": "ev", "job": x, "i": i, "t": rng.random()}) + "\n" for i in range(rng.randint(0, 4))]
+                with open(os.path.join(out, JOBS_OUTPUT_DIR, x, "events.log"), "w") as f:
+                    f.writelines(lines)
+                expected += lines
+                had.append(x)
+        r = JobRunner.__new__(JobRunner)
+        r._config, r._output, r._event_filename = cfg, out, node_log
+        r._aggregate_events()
+        failed = []
+        got = open(node_log).readlines() if os.path.exists(node_log) else None
+        if got != expected:
+            if got is None or got[:len(own)] != own:
+                failed.append(f"the node's own events were lost: log had {len(own)} lines, now starts with {0 if got is None else sum(1 for a, b in zip(got, own) if a == b)} of them")
+            failed.append(f"node event log has {None if got is None else len(got)} lines, expected {len(expected)} (own events + job logs in configuration order)")
+        for x in had:
+            if os.path.exists(os.path.join(out, JOBS_OUTPUT_DIR, x, "events.log")):
+                failed.append(f"job log of {x} was not removed after being copied (it would be copied again)")
+        return {"pre_ok": True, "ok": not failed, "failed": failed}
+    finally:
+        shutil.rmtree(out, ignore_errors=True)
+
+
+def cases_aggregate(tier, rng):
+    for i in range(40 if tier == "quick" else 500):
+        yield {"seed": rng.randint(0, 10**9), "n": rng.randint(0, 5), "own": rng.choice([-1, 0, 1, 3])}
+
+
 HARNESSES = {
+    "JobRunner._aggregate_events_v": (cases_aggregate, run_aggregate),
     "EventsSummary._consolidate_events": (cases_events, run_events),
 }
